@@ -577,11 +577,19 @@ theorem specStep_merge (F : TFlags) (P : Params) (now st : Int) (s : NT) (sp : T
   | once d =>
     simp only [specStep]
     cases onceCand P d now st with
-    | none => rfl
+    | none =>
+      cases hb : (!F.badDateRaises && (parseDT P.base d 0 now st).isNone) with
+      | false => simp
+      | true => simp [merge_empty]
     | some c => cases c <;> simp [merge_empty, merge_take]
   | cron id =>
     simp only [specStep]
-    cases cronLoop P id now cronFuel now <;> simp [merge_take]
+    cases cronLoop P id now cronFuel now with
+    | none =>
+      cases hb : F.cronDeadRaises with
+      | false => simp [merge_empty]
+      | true => simp
+    | some r => simp [merge_take]
   | period a per stop =>
     simp only [specStep, periodStep]
     cases parseDT P.base a 0 now st with
@@ -657,7 +665,11 @@ theorem specStep_future (F : TFlags) (P : Params) (hE : FloatOK F P) (hC : CronF
   | once d =>
     simp only [specStep] at h
     cases hc : onceCand P d now st with
-    | none => simp [hc] at h
+    | none =>
+      simp only [hc] at h
+      split at h
+      · simp only [Option.some.injEq] at h; subst h; exact hs
+      · simp at h
     | some c =>
       cases c with
       | none => simp [hc] at h; subst h; exact hs
@@ -687,7 +699,11 @@ theorem specStep_future (F : TFlags) (P : Params) (hE : FloatOK F P) (hC : CronF
   | cron id =>
     simp only [specStep] at h
     cases hc : cronLoop P id now cronFuel now with
-    | none => simp [hc] at h
+    | none =>
+      simp only [hc] at h
+      split at h
+      · simp at h
+      · simp only [Option.some.injEq] at h; subst h; exact hs
     | some v =>
       simp only [hc, Option.some.injEq] at h
       subst h
